@@ -340,7 +340,7 @@ def tr_registry(run):
             + "".join("Definition %s : registry :=\n  %s.\n\n" % (k, reg_term(regs[k])) for k, _, _ in KINDS)
             + "Definition consts : registry_consts :=\n  {| rc_sentinel := %s;\n     rc_lookup_ok := %s;\n     rc_ds := ds; rc_flt := flt; rc_out := out;\n"
               "     rc_configure_features := %s;\n     rc_configure_generic := %s;\n     rc_confighin := %s |}.\n"
-            % (coq_str(sentinel if sentinel is not None else "?unrecognised"), "true" if lookup_ok else "false",
+            % (coq_str(sentinel if sentinel is not None else ""), "true" if lookup_ok else "false",   # unrecognised: lookup_ok is false, "" keeps the model runnable
                coq_list(coq_str(g) for g in feats), coq_list(coq_str(g) for g in generic), coq_list(coq_str(g) for g in hin)))
     run.write_gen("Gen_Registry.v", text)
     js = {"sentinel": sentinel, "lookup_ok": lookup_ok, "configure_features": feats, "configure_generic": generic, "confighin": hin,
